@@ -1746,7 +1746,11 @@ impl Unit {
             found.vis = parse_quote! { pub };
             found.attrs = vec![];
             found.block = block;
-            found.impl_header = None;
+            // a slice whose signature has a receiver stays a method of the enclosing impl's type (emitted as inherent method)
+            let has_receiver = matches!(found.sig.inputs.first(), Some(syn::FnArg::Receiver(_)));
+            if !has_receiver {
+                found.impl_header = None;
+            }
             found.assoc_types = vec![];
             found.other_items = vec![];
         }
